@@ -36,7 +36,7 @@ VALS = [("Integer", 1), ("Integer", 0), ("Float", 1.0), ("Float", 0.0), ("Float"
 FIELDS = ["f", "g"]
 TIERS = {
     "quick": [{"mode": "alpha", "K": 4}, {"mode": "beta", "K": 5}, {"mode": "concl", "K": 4}],
-    "thorough": [{"mode": "alpha", "K": 5, "vals": "small"}, {"mode": "alpha", "K": 4}, {"mode": "beta", "K": 6}, {"mode": "concl", "K": 5}],
+    "thorough": [{"mode": "alpha", "K": 4}, {"mode": "beta", "K": 6}, {"mode": "concl", "K": 5}],      # alpha K=5: one query needed 508 s even over 4 candidates
 }
 ASSUMPTIONS = [
     "fact values from the candidate set in checks/c16.py (printed forms that collide across types, signed zeros, NaN, arrays); field names {f, g}; every fact carries a unique Integer `id`",
